@@ -14,6 +14,9 @@ func PayPerInterval(storeDriver store.BalanceStore, interval time.Duration, cred
 		Store:             storeDriver,
 		Interval:          interval,
 		CreditPerInterval: *creditPerInterval,
+
+		// Set here rather than on first use: updates run concurrently.
+		now: time.Now,
 	}
 }
 
